@@ -87,6 +87,35 @@ def _transformations():
             m, 'SAEM', tool_options={'NBURN': 500, 'NITER': 200, 'ISAMPLE': 2})),
         ('append_estimation_step_options', lambda m: pm.append_estimation_step_options(
             m, tool_options={'SEED': 1234, 'PHITYPE': 1}, idx=0)),
+        # more components: dataset/datainfo edits, error models, eta transformations, PD, steps
+        ('add_time_after_dose', lambda m: pm.add_time_after_dose(m)),
+        ('set_dtbs_error_model', lambda m: pm.set_dtbs_error_model(m)),
+        ('set_weighted_error_model', lambda m: pm.set_weighted_error_model(m)),
+        ('set_time_varying_error_model', lambda m: pm.set_time_varying_error_model(m, cutoff=1.0)),
+        ('use_thetas_for_error_stdev', lambda m: pm.use_thetas_for_error_stdev(m)),
+        ('set_ode_solver(LSODA)', lambda m: pm.set_ode_solver(m, 'LSODA')),
+        ('add_predictions', lambda m: pm.add_predictions(m, ['CIPREDI', 'PRED'])),
+        ('add_residuals', lambda m: pm.add_residuals(m, ['CWRES', 'RES'])),
+        ('set_simulation', lambda m: pm.set_simulation(m, n=2, seed=1234)),
+        ('add_parameter_uncertainty_step(RMAT)', lambda m: pm.add_parameter_uncertainty_step(m, 'RMAT')),
+        ('drop_columns(APGR)', lambda m: pm.drop_columns(m, ['APGR'], mark=True)),
+        ('remove_loq_data', lambda m: pm.remove_loq_data(m, lloq=10)),
+        ('set_covariates', lambda m: pm.set_covariates(m, ['WGT', 'APGR'])),
+        ('add_cmt', lambda m: pm.add_cmt(m)),
+        ('add_admid', lambda m: pm.add_admid(m)),
+        ('set_zero_order_elimination', lambda m: pm.set_zero_order_elimination(m)),
+        ('set_seq_zo_fo_absorption', lambda m: pm.set_seq_zo_fo_absorption(m)),
+        ('add_bioavailability', lambda m: pm.add_bioavailability(m)),
+        ('transform_etas_boxcox(ETA_CL)', lambda m: pm.transform_etas_boxcox(m, ['ETA_CL'])),
+        ('transform_etas_tdist(ETA_VC)', lambda m: pm.transform_etas_tdist(m, ['ETA_VC'])),
+        ('remove_error_model', lambda m: pm.remove_error_model(m)),
+        ('mu_reference_model', lambda m: pm.mu_reference_model(m)),
+        ('add_indirect_effect', lambda m: pm.add_indirect_effect(m, 'linear')),
+        ('add_metabolite', lambda m: pm.add_metabolite(m)),
+        ('set_direct_effect(emax)', lambda m: pm.set_direct_effect(m, 'emax')),
+        ('categorical APGR', lambda m: m.replace(datainfo=m.datainfo.set_column(
+            m.datainfo['APGR'].replace(type='covariate', scale='ordinal', categories=tuple(
+                sorted(set(int(x) for x in m.dataset['APGR']))))))),
     ]
     return T
 
@@ -199,6 +228,7 @@ def node_main(args):
     base = load_example_model('pheno')
     ds = base.dataset
     base = base.replace(dataset=ds[ds['ID'] <= 4].reset_index(drop=True))
+    base0 = base
     out = []
     stored = {}
     db = None
@@ -210,10 +240,15 @@ def node_main(args):
         family = ('plain', 'commute', 'rebuild', 'rename', 'differs', 'unloaded')[i % 6]
         rec = {'index': i, 'family': family}
         log = []
-        k = tape.draw(5, 'history.len')
+        k = tape.draw(6, 'history.len')
         hist = [tape.draw(len(T), 'history.t') for _ in range(k)]
         try:
-            A = _apply(base, T, hist, log)
+            # every model of the batch starts from its own copy of the data: some
+            # transformations (add_cmt, add_admid) modify the caller's DataFrame in place
+            # (an immutability defect outside C12, see DESIGN.md O7) and must not leak into
+            # the other models of the batch
+            base_i = base0.replace(dataset=base0.dataset.copy())
+            A = _apply(base_i, T, hist, log)
             rec['history'] = log
             rec['A'] = _facts(A, ModelHash)
             if family == 'commute':
@@ -226,8 +261,8 @@ def node_main(args):
                 else:
                     i1, i2 = tape.draw(len(T), 'commute.1'), tape.draw(len(T), 'commute.2')
                 l1, l2 = [], []
-                X = _apply(A, T, [i1, i2], l1)
-                Y = _apply(A, T, [i2, i1], l2)
+                X = _apply(A.replace(dataset=A.dataset.copy()), T, [i1, i2], l1)
+                Y = _apply(A.replace(dataset=A.dataset.copy()), T, [i2, i1], l2)
                 rec['pair'] = [l1, l2]
                 rec['X'] = _facts(X, ModelHash)
                 rec['Y'] = _facts(Y, ModelHash)
@@ -373,6 +408,7 @@ def node_main(args):
             class _Rev:
                 def permutation(self, n, label=None):
                     return list(range(n - 1, -1, -1))
+            base = base0.replace(dataset=base0.dataset.copy())
             A = pm.add_peripheral_compartment(pm.set_first_order_absorption(base))
             B, perms = _rebuild_ode(A, _Rev())
             rec['perms'] = perms
@@ -390,6 +426,7 @@ def node_main(args):
                'pair': [['upper(POP_CL)', 'fix(POP_CL)'], ['fix(POP_CL)', 'upper(POP_CL)']]}
         try:
             import pharmpy.modeling as pm
+            base = base0.replace(dataset=base0.dataset.copy())
             X = pm.fix_parameters(pm.set_upper_bounds(base, {'POP_CL': 10}), 'POP_CL')
             Y = pm.set_upper_bounds(pm.fix_parameters(base, 'POP_CL'), {'POP_CL': 10})
             rec['A'] = _facts(base, ModelHash)
@@ -496,7 +533,8 @@ def compare(batch, nodes_out, hashseeds):
                          f'model {a["index"]} history {a.get("history")}: from_dict(to_dict(M)) == M but '
                          f'its key {fa.get("from_dict_key")} != {fa.get("key")}', a['index']))
         if 'eq' in a:
-            if a['eq']:
+            # Model.__eq__ ignores the dataset: "same content" also needs the same data
+            if a['eq'] and a['X'].get('dataset_hash') == a['Y'].get('dataset_hash'):
                 stats['pairs_equal'] += 1
                 if a['X']['key'] != a['Y']['key']:
                     fam = 'construction-order' if a['family'] == 'rebuild' else 'transformation-order'
